@@ -127,7 +127,7 @@ def declare(e):
         if v.ty == TAbs("Path"):
             return [(s, v)]
         if v.ty.kind == "str":
-            f = eng.uf("path_of_str", [z3.StringSort()], reg.sort(TAbs("Path")))
+            f = eng.uf("ghost_path_of_str", [z3.StringSort()], reg.sort(TAbs("Path")))
             return [(s, Val(TAbs("Path"), f(v.t)))]
         raise Unsupported(f"Path({v.ty})")
     e.func_models[pathlib.Path] = m_path
@@ -135,7 +135,7 @@ def declare(e):
 
     def str_to_path(eng, v, ty):
         t = z3.StringVal(v.t) if v.is_py else v.t
-        f = eng.uf("path_of_str", [z3.StringSort()], reg.sort(TAbs("Path")))
+        f = eng.uf("ghost_path_of_str", [z3.StringSort()], reg.sort(TAbs("Path")))
         return Val(TAbs("Path"), f(t))
     e.coerce_hooks[("str", "Path")] = str_to_path
     for cls in (rep.FileReport, rep.ProjectReport, rep.ProjectSubsetReport):
@@ -402,9 +402,22 @@ def declare_toml(e):
                 pyclass=gl.ReuseTOML)
     reg.declare("data", "NestedReuseTOML", fields={"source": "str", "reuse_tomls": "list[ReuseTOML]"}, pyclass=gl.NestedReuseTOML)
 
+    e.inline_ok.add("reuse.global_licensing.ReuseTOML.directory")
+
     def m_as_posix(eng, s, recv, name, args, kw, node):
-        return [(s, Val(STR, eng.uf("ghost_as_posix", [P], z3.StringSort())(recv.t)))]
+        t = recv.t
+        # PurePath(p.as_posix()).as_posix() == p.as_posix()  (assumed pathlib fact, applied syntactically)
+        if z3.is_app(t) and t.decl().name() == "ghost_path_of_str" and z3.is_app(t.arg(0)) and t.arg(0).decl().name() == "ghost_as_posix":
+            return [(s, Val(STR, t.arg(0)))]
+        return [(s, Val(STR, eng.uf("ghost_as_posix", [P], z3.StringSort())(t)))]
     e.method_models[("Path", "as_posix")] = m_as_posix
+
+    def rw_as_posix(eng, cargs):
+        t = cargs[0].t
+        if z3.is_app(t) and t.decl().name() == "ghost_path_of_str" and z3.is_app(t.arg(0)) and t.arg(0).decl().name() == "ghost_as_posix":
+            return Val(STR, t.arg(0))
+        return None
+    e.ufun_rewrites["as_posix"] = rw_as_posix
 
     def m_relative_to(eng, s, recv, name, args, kw, node):
         other = eng.coerce(args[0], TAbs("Path"))
